@@ -1022,6 +1022,20 @@ func isSameSSTFile(f1 string, f2 string) error {
 	return fmt.Errorf("sst file footer not match")
 }
 
+// restoreCopyRank orders the files of a checkpoint for copying (and, reversed, the files
+// of the engine directory for removal): tables, manifest and options, then CURRENT, then
+// the write-ahead logs. Without CURRENT the engine creates an empty db, which it refuses
+// to do over existing logs; with CURRENT everything it names is already there.
+func restoreCopyRank(fn string) int {
+	switch {
+	case strings.HasSuffix(fn, ".log"):
+		return 2
+	case path.Base(fn) == "CURRENT":
+		return 1
+	}
+	return 0
+}
+
 func (r *RockDB) restoreFromPath(backupDir string, term uint64, index uint64) error {
 	// write meta (snap term and index) and check the meta data in the backup
 	r.checkpointDirLock.RLock()
@@ -1063,6 +1077,11 @@ func (r *RockDB) restoreFromPath(backupDir string, term uint64, index uint64) er
 		}
 	}
 
+	// keep the directory openable if the restore is interrupted (the next start restores
+	// again): logs never exist without CURRENT, CURRENT never without what it names
+	sort.SliceStable(nameList, func(i, j int) bool {
+		return restoreCopyRank(nameList[i]) > restoreCopyRank(nameList[j])
+	})
 	for _, fn := range nameList {
 		shortName := path.Base(fn)
 		if strings.HasPrefix(shortName, "LOG") {
@@ -1084,6 +1103,9 @@ func (r *RockDB) restoreFromPath(backupDir string, term uint64, index uint64) er
 		os.RemoveAll(fn)
 	}
 	verifhook.Crash("restore.files_removed")
+	sort.SliceStable(ckNameList, func(i, j int) bool {
+		return restoreCopyRank(ckNameList[i]) < restoreCopyRank(ckNameList[j])
+	})
 	for _, fn := range ckNameList {
 		if strings.HasPrefix(path.Base(fn), "LOG") {
 			dbLog.Infof("ignore copy LOG file: %v", fn)
